@@ -10,7 +10,7 @@ use pnet::packet::ip::IpNextHeaderProtocols;
 use pnet::packet::{
     ipv4::{Ipv4Flags, Ipv4Packet},
     ipv6::Ipv6Packet,
-    tcp::{TcpFlags, TcpOptionNumbers::*, TcpOptionPacket, TcpPacket},
+    tcp::{TcpFlags, TcpOptionNumber, TcpOptionNumbers::*, TcpOptionPacket, TcpPacket},
     Packet, PacketSize,
 };
 use std::convert::TryInto;
@@ -180,6 +180,40 @@ pub fn process_tcp_ipv6(
         })
 }
 
+/// p0f's `bad` quirk: the option area does not follow the TCP option grammar.
+///
+/// An option other than end-of-options / no-operation needs a length byte of at least 2
+/// that stays inside the area, and the options with a fixed format must have their size
+/// (MSS 4, window scale 3, SACK permitted 2, SACK 2 + 8 * n for 1 to 4 blocks, timestamps 10).
+/// Whatever follows an end-of-options marker is padding and is not examined.
+fn options_malformed(mut buf: &[u8]) -> bool {
+    while let Some((&kind, rest)) = buf.split_first() {
+        match TcpOptionNumber(kind) {
+            EOL => return false,
+            NOP => buf = rest,
+            number => {
+                let Some(&len) = rest.first() else {
+                    return true;
+                };
+                let len = usize::from(len);
+                let size_ok = match number {
+                    MSS => len == 4,
+                    WSCALE => len == 3,
+                    SACK_PERMITTED => len == 2,
+                    SACK => matches!(len, 10 | 18 | 26 | 34),
+                    TIMESTAMPS => len == 10,
+                    _ => len >= 2,
+                };
+                match buf.get(len..) {
+                    Some(next) if size_ok => buf = next,
+                    _ => return true,
+                }
+            }
+        }
+    }
+    false
+}
+
 #[allow(clippy::too_many_arguments)]
 fn visit_tcp(
     connection_tracker: &mut TtlCache<ConnectionKey, TcpTimestamp>,
@@ -324,6 +358,10 @@ fn visit_tcp(
                 olayout.push(TcpOption::Unknown(opt.get_number().0));
             }
         }
+    }
+
+    if options_malformed(tcp.get_options_raw()) {
+        quirks.push(Quirk::OptBad);
     }
 
     let mtu: Option<ObservableMtu> = match (mss, &version) {
